@@ -15,7 +15,7 @@ PROP = "C15"
 
 RULE = ("requests with an Expect header (any case, inside lists; none; HTTP/1.0) x framing (Content-Length / chunked / none) x head and "
         "body in the same read or separate reads x expect-continue handler registered or not x chunk handler x consecutive requests "
-        "on one connection; oracle: in the operation whose read completes such a head, exactly one interim 100 Continue is "
+        "on one connection, a handler that rejects the expectation with a final 417 followed by a further Expect request; oracle: in the operation whose read completes such a head, exactly one interim 100 Continue is "
         "written (or the handler is invoked once), none for HTTP/1.0 or without Expect; non-trivial = an Expect header occurs")
 
 
